@@ -22,11 +22,13 @@ CHECKS = {
     ),
     "C02": dict(
         cat="other",
-        text="Necessary structural conditions only: counter width can hold 1326 positions (no narrowing length cast), "
-             "every card tested against the used-card set is also unconditionally recorded (turn, river, both hole cards), "
-             "the probability argument is 1.0 times every chosen weight, board order b0..b4 with b3=deck[turn], "
-             "b4=deck[river], odometer bound idx+1<len with +=1/reset 0. Exactly-once/completeness of the walk over runtime "
-             "states is NOT decided (no sound static argument in reach).",
+        text="Necessary structural conditions of exactly-once enumeration, decided for every input: counter width holds 1326 positions; "
+             "every (combo, weight) of every range is copied into the entry lists unconditionally (filters may only look at the combo and the "
+             "board) and the lists are never shrunk or reordered; the iterator's board is the evaluator's board; every card tested against "
+             "the used-card set is also recorded (turn, river, both hole cards, unconditionally); the flop is blocked by the showdown "
+             "constructor's board test; probability = 1.0 times every chosen weight; board order b0..b4 with b3=deck[turn], b4=deck[river]; "
+             "mixed-radix odometer: bound idx+1<len, +=1, scan from the last player stopping at the first hit, reset (advanced+1)..len. "
+             "That these structural facts add up to exactly-once over all runtime states is argued in DESIGN.md, not machine-checked.",
         ref="DESIGN.md §4 C02",
         note=TB + "; decides the named clauses, not the enumeration behaviour.",
         technique="static analysis: provenance of call arguments, must-insert / dominance rules on the MIR of the deal function, cast audit over the reachable call graph",
@@ -58,63 +60,66 @@ CHECKS = {
     ),
     "C04": dict(
         cat="other",
-        text="Two clauses. (1) 'afterwards stays exhausted' is proved for every input: no path from entry to an exhausted "
-             "None return writes (or mutably borrows) any iterator field that a branch on that path reads, and the next() "
-             "wrapper writes no state; with no other state (C15) the exhaustion predicate stays true. (2) scope(a,b,c,d) "
-             "parameters reach the iterator's start/end fields by dataflow, new() defaults are (0,1,L-1,L) for the deck "
-             "length L, and the exhaustion test compares (turn,end turn) and (river,end river). The position arithmetic "
-             "(lexicographic order, rollover, exact scope edges) is NOT decided.",
+        text="Four clauses. (1) 'afterwards stays exhausted' is proved for every input: no path from entry to an exhausted None writes (or "
+             "mutably borrows) any iterator field that a branch on that path reads, and the next() wrapper writes no state. (2) scope(a,b,c,d) "
+             "reaches the iterator's start/end fields by dataflow, new() defaults are (0,1,L-1,L), the exhaustion test compares (turn,end "
+             "turn) and (river,end river). (3) successor: the only position writes are river+=1 under river<L-1 and turn+=1; river=turn+1, "
+             "outside loops. (4) scope-independence: at construction the scope values are only copied, nothing else is computed from them, so a "
+             "scoped run is a window of the unscoped run. Lexicographic visiting order follows from (3); exact scope-edge behaviour over "
+             "runtime values is not separately machine-checked.",
         ref="DESIGN.md §4 C04",
         note=TB + "; roles of private fields are derived from scope()'s public parameter order, not from names.",
         technique="static analysis: write-freedom (effect) analysis on the chop entry->exhausted return, dataflow of scope parameters",
     ),
     "C05": dict(
         cat="other",
-        text="Layout agreement and expansion tables, decided for the whole notation rather than 14 sample strings: for each of "
-             "the 10 token shapes the regex's fixed prefix has exactly the rank / suit / kind characters of the char tables "
-             "at the positions standard notation prescribes, every field is parsed from the prescribed byte, the required byte "
-             "equalities and the suited/offsuit selector are present, and the weight is read from where the shape ends; "
-             "expansion walks RankRange::inclusive with the prescribed endpoints and builds the prescribed rank pair per step "
-             "with the token's weight; the 6/4/12 combo tables are complete and duplicate-free; the range parser strips spaces, "
-             "splits on ',', inserts in token order into the returned map and cannot fail. The end-to-end relation over all "
-             "token lists is NOT decided.",
+        text="Layout agreement, acceptance and expansion tables, decided for the whole notation rather than 14 sample strings: for each of the "
+             "10 token shapes the regex's fixed prefix has exactly the rank / suit / kind characters of the char tables at the positions "
+             "standard notation prescribes, every field is parsed from the prescribed byte, required byte equalities and the suited/offsuit "
+             "selector are present, every other condition on the way to Ok must be one the notation explains (helper predicates are "
+             "summarised), the weight is read from where the shape ends; expansion walks RankRange::inclusive with the prescribed endpoints, "
+             "builds the prescribed rank pair per step with the token's weight and never branches on the weight; 6/4/12 combo tables "
+             "complete and duplicate-free; card pairs go through the normalising constructor; the range parser strips spaces, splits on ',', "
+             "parses every piece, inserts in token order into the returned map and cannot fail. The end-to-end relation over all token lists "
+             "is NOT decided.",
         ref="DESIGN.md §4 C05",
         note=TB + "; the table of expected positions (rules/c05.py SPEC) is the checker's statement of standard notation.",
         technique="static analysis: regex-language layout vs slice-offset provenance, argument provenance of the expansion incl. closure captures, table extraction",
     ),
     "C06": dict(
         cat="other",
-        text="Claims the token-level round trip (second sentence of the property) and the range-level separator clause, by comparing "
-             "two extracted models: the symbolic text of every token kind (fmt templates decoded, nested Display impls expanded to "
-             "rank / suit / literal characters and the f32 weight) against the parser branch for that kind (regex layout, "
-             "byte→field map, equalities, kind letter, weight offset and grammar): each emitted shape is accepted by exactly the "
-             "branch that rebuilds the same token from the bytes the formatter wrote, no earlier branch matches, the weight suffix is "
-             "written iff weight != 1.0 as ':' + default f32 Display which the grammar accepts, omitted weight = parser default, "
-             "tokens are joined by the parser's separator. That the token LIST emitted for a range denotes exactly that range (run "
-             "merging, leftovers) is NOT decided; no claim is made for it.",
+        text="Claims the token-level round trip (second sentence), the separator clause and range-level NECESSARY conditions. Token level: "
+             "the symbolic text of every token kind (fmt templates decoded, nested Display impls expanded to rank/suit/literal characters and "
+             "the f32 weight) is compared with the parser branch for that kind (regex layout, byte→field map, equalities, kind letter, "
+             "weight offset/grammar); suffix written iff weight != 1.0 as ':' + default f32 Display, accepted by every grammar; omitted = "
+             "default. Range level: the run-length passes are matched against the run-merging template (absent pair or weight change closes "
+             "with one token and a reset, equal weight continues, runs open at present pairs, last run closed, token kind by the run's ends, "
+             "start's weight, no early exit), the leftover pass emits every present leftover combo, the split into rank pairs compares "
+             "weights exactly (C12's probe rule). That these add up to value equality for all 2^1326 ranges is not machine-checked.",
         ref="DESIGN.md §4 C06 (revised in §10)",
         note=TB + "; f32 Display/parse round trip is a std guarantee; tokens well formed.",
         technique="static analysis: writer/reader table agreement — decoded fmt templates vs regex-language layout and slice-offset provenance of the parser",
     ),
     "C07": dict(
         cat="proof",
-        text="Complete for the stated mechanism: the interval partition of hand_type() is extracted from MIR and "
-             "compared with the category of every one of the 7462 classes of an independently built numbering; "
-             "all 7462 obligations are discharged on every run. Together with C01 (index = standard class) this "
-             "decides the property for all seven-card inputs, which no sample of hands can.",
+        text="Complete for the stated mechanism: the interval partition of hand_type() is extracted from MIR and compared with the category of "
+             "every one of the 7462 classes of an independently built numbering; and, because the category of a HAND is hand_type of its "
+             "evaluated index, all C01 rules (both tables exhaustively, hash constants, loop templates) are re-evaluated under this id. All "
+             "obligations are discharged on every run.",
         ref="DESIGN.md §4 C07",
         note=TB + "; assumes C01 (power index is the standard class 1..=7462).",
         technique="static analysis: MIR decision-tree extraction (interval partition) vs independent class oracle, exhaustive over 7462 indexes",
     ),
     "C09": dict(
         cat="other",
-        text="Panic-freedom argument over every body reachable from the six FromStr impls, token expansion, range "
-             "formatting and decomposition: all 50 str slicing sites are discharged by ASCII+length guards on the same string "
-             "(dominance, start-anchored ASCII regex prefixes, is_ascii, len tests, starts_with), span-shaped tokens are only "
-             "built under the rank-order comparison that keeps RANKS[start..=end] and next().unwrap() in bounds (and the "
-             "expansion is checked to use exactly those arguments), every RankRange/SuitRange construction has ordered bounds, "
-             "regex literals are inside the analysed subset, checked gets; the remaining sites carry audited invariants. "
-             "Thorough tier repeats the audit with overflow checks off.",
+        text="Panic-freedom argument over every body reachable from the six FromStr impls, token expansion, range formatting and "
+             "decomposition: all 50 str slicing sites are discharged by ASCII+length guards on the same string (dominance; start-anchored "
+             "ASCII regex prefixes incl. cached regexes, is_ascii, len tests, starts_with), span-shaped tokens are only built under the "
+             "rank-order comparison that keeps RANKS[start..=end] and next().unwrap() in bounds (and the expansion is checked to use exactly "
+             "those arguments), every RankRange/SuitRange construction has ordered bounds, regex literals are inside the analysed subset, "
+             "checked gets, distinct-card guards (a combo of one card twice would crash the evaluator); the remaining sites carry audited "
+             "invariants keyed by owner/kind/operand class. Thorough tier repeats the audit with overflow checks off and cross-references "
+             "clippy's restriction lints.",
         ref="DESIGN.md §4 C09, §3.4",
         note=TB + "; panics inside regex/std other than the documented ones and allocation failure are assumed away; audited allowances carry stated invariants.",
         technique="static analysis: potential-panic site enumeration over the reachable call graph with dominance-based discharge rules (string guards, order guards) and an audited allowance table",
@@ -133,12 +138,12 @@ CHECKS = {
     ),
     "C11": dict(
         cat="other",
-        text="Mechanisms only: a use-site audit of every Suit-typed value in the bodies reachable from MadeHand::from, "
-             "Showdown::new and winner_len shows evaluation depends on suits only through equality with non-constant suits "
-             "and through an injective code used solely to index a local counter array (no suit constant, match, ordering or "
-             "arithmetic on the code) — hence invariance under any permutation of the four suits; the seat index only enters "
-             "the winner set; winner flags/count discipline (C03's rules re-evaluated). The metamorphic relation over whole "
-             "enumerations (two runs of the pipeline) is NOT decided.",
+        text="Mechanisms only: a use-site audit of every Suit-typed value in the bodies reachable from MadeHand::from, Showdown::new and "
+             "winner_len shows evaluation depends on suits only through equality with non-constant suits and through an injective code "
+             "used solely to index a local counter array (no suit constant incl. promoted ones, match, ordering or arithmetic on the code); "
+             "the seat index only enters the winner set; winner flags/count discipline (C03's rules); the unscoped evaluator covers the "
+             "whole position line and moves by lexicographic successor (C04's rules); blocking between players is symmetric (C02's used-set "
+             "rule). The metamorphic relation over whole enumerations (two runs of the pipeline) is NOT decided.",
         ref="DESIGN.md §4 C11",
         note=TB + "; deck/odometer order affecting only the order of deals is assumed (C02 decides necessary conditions only).",
         technique="static analysis: typed use-site (taint) audit of Suit values and of the player position over the reachable call graph",
@@ -192,11 +197,14 @@ CHECKS = {
     ),
     "C17": dict(
         cat="other",
-        text="One clause, decided for every construction history: in all bodies reachable from the range/token Display impls, "
-             "iteration over a hash-ordered iterator (detected through the resolved Iterator::next type and crate-local "
-             "functions returning hash iterators) only feeds order-insensitive sinks and only exits on exhaustion, iterator "
-             "chains over hash iterators are only consumed by order-free consumers, and every token is pushed inside loops over "
-             "the fixed rank/suit tables; so the text is a function of the contents. Maximal run merging is NOT decided.",
+        text="For every construction history: (1) in all bodies reachable from the Display impls hash-ordered iteration only feeds "
+             "order-insensitive sinks and exits on exhaustion, and tokens are pushed inside loops over the fixed tables; (2) the three "
+             "run-length passes match the run-merging template (absent pair or weight change closes the run with exactly one token and a "
+             "reset; equal weight continues: runs are maximal; runs open at present pairs also right after a close; the last run is "
+             "closed; single / + / span chosen by the run's ends per path; start's weight; no early exit; suited and offsuit passes are "
+             "checked by the same template = sibling agreement); row domains and pass order pockets → suited → offsuit → leftovers; the "
+             "leftover pass emits every present leftover combo in table order; (3) a token's text determines its weight (suffix iff != 1.0, "
+             "default f32 Display). What remains trusted is the template matcher and std's Option/HashMap semantics.",
         ref="DESIGN.md §4 C17",
         note=TB + "; Vec / RankRange / SuitRange iterate in fixed order.",
         technique="static analysis: effect audit of hash-ordered loops and iterator chains over the reachable call graph",
